@@ -59,20 +59,6 @@ pub fn mutant_universe(mut u: Universe, seed: u64) -> Universe {
         u.subjects.push(b);
         u.pairs.push((u.subjects.len() - 2, u.subjects.len() - 1));
     }
-    // array lengths that agree modulo 2^32 (no value of such a type exists: it is mentioned below PhantomData / as
-    // the item of a zero-length array)
-    {
-        use vmodel::ty::{Prim, Ty};
-        let huge = (1usize << 32) + 2;
-        for (a, b) in [
-            (Ty::phantom(Ty::arr(Ty::Prim(Prim::U8), 2)), Ty::phantom(Ty::arr(Ty::Prim(Prim::U8), huge))),
-            (Ty::arr(Ty::arr(Ty::Prim(Prim::U16), 1), 0), Ty::arr(Ty::arr(Ty::Prim(Prim::U16), huge - 1), 0)),
-        ] {
-            u.subjects.push(a);
-            u.subjects.push(b);
-            u.pairs.push((u.subjects.len() - 2, u.subjects.len() - 1));
-        }
-    }
     // the same definition with a different value of one const generic argument
     for si in 0..n_subjects {
         let t = u.subjects[si].clone();
@@ -120,6 +106,12 @@ pub fn universe_by_label(label: &str, opts: &Opts) -> Universe {
     }
     if label == "wide" {
         return vmodel::fixedgen::wide_universe();
+    }
+    if label == "huge" {
+        return vmodel::fixedgen::huge_universe();
+    }
+    if label == "deep" {
+        return vmodel::fixedgen::deep_universe();
     }
     if label == "odd" {
         return vmodel::fixedgen::odd_universe();
@@ -278,6 +270,16 @@ pub struct BuildOutcome {
 
 pub fn cargo() -> Command {
     let mut c = Command::new("cargo");
+    // a compiler that runs away (a change in the library can make rustc materialise a gigantic constant for one of
+    // the generated types) fails with an allocation error instead of taking the machine down
+    unsafe {
+        use std::os::unix::process::CommandExt;
+        c.pre_exec(|| {
+            let lim = libc::rlimit { rlim_cur: 24 << 30, rlim_max: 24 << 30 };
+            libc::setrlimit(libc::RLIMIT_AS, &lim);
+            Ok(())
+        });
+    }
     c.env("CARGO_NET_OFFLINE", "true").env("CARGO_TARGET_DIR", format!("{}/target", WORK)).current_dir(HARNESS);
     c
 }
@@ -379,15 +381,33 @@ pub fn discovered_env_vars() -> Vec<String> {
     v
 }
 
+/// Universes skipped by `prepare` (label, reason); the caller reports them as notes.
+pub static SKIPPED: std::sync::Mutex<Vec<(String, String)>> = std::sync::Mutex::new(Vec::new());
+
 /// Compiler errors (per binary = universe label) of the last `prepare`.
 pub static LAST_ERRORS: std::sync::Mutex<std::collections::BTreeMap<String, Vec<String>>> = std::sync::Mutex::new(std::collections::BTreeMap::new());
 
 /// Generate + build the given universes; returns their labels with descriptions.
 pub fn prepare(opts: &Opts, labels: &[String]) -> Result<Vec<(String, Universe)>, String> {
     let us: Vec<(String, Universe)> = labels.iter().map(|l| (l.clone(), universe_by_label(l, opts))).collect();
+    let mut us = us;
     let dir = write_crate(&us, variant());
-    let b = cargo_build(&dir, false);
+    let mut b = cargo_build(&dir, true);
     *LAST_ERRORS.lock().unwrap() = b.errors.clone();
+    // Seeded universes (not the fixed or hand-written ones) whose compilation exhausts the compiler's memory
+    // budget are skipped with a note: the other universes still decide the property. (A change in the library's
+    // inlining structure can make rustc need tens of gigabytes for moderately nested generated types.)
+    if !b.ok && b.errors.is_empty() && (b.raw_tail.contains("out of memory") || b.raw_tail.contains("Allocation failed") || b.raw_tail.contains("SIGKILL")) {
+        let failed: Vec<String> = b.raw_tail.lines().filter_map(|l| l.split("(bin \"").nth(1).and_then(|x| x.split('"').next()).map(|x| x.to_string())).collect();
+        let seeded = |l: &str| l.starts_with('s') && l[1..].chars().next().map_or(false, |c| c.is_ascii_digit()) || l.starts_with("ms");
+        if !failed.is_empty() && failed.iter().all(|f| seeded(f)) && failed.len() < us.len() {
+            for f in &failed {
+                SKIPPED.lock().unwrap().push((f.clone(), "the compiler ran out of its memory budget (24 GiB) on this generated program".to_string()));
+            }
+            us.retain(|(l, _)| !failed.contains(l));
+            b.ok = us.iter().all(|(l, _)| Path::new(&bin_path(l)).exists());
+        }
+    }
     if !b.ok {
         let mut msg = String::from("build of generated subject programs failed\n");
         for (t, es) in &b.errors {
